@@ -181,7 +181,19 @@ class CallGraph:
         return None
 
     def type_text(self, e, fi: FuncInfo) -> Optional[str]:
-        """Static type text of an expression inside function fi (flow-insensitive)."""
+        """Static type text of an expression inside function fi (flow-insensitive).  Mutually dependent local
+        definitions (`a = b.f()` ... `b = a.g()`) have no type: the question is cut where it comes back to itself."""
+        busy = self.__dict__.setdefault("_type_text_busy", set())
+        key = (id(e), id(fi))
+        if key in busy or len(busy) > 120:
+            return None
+        busy.add(key)
+        try:
+            return self._type_text(e, fi)
+        finally:
+            busy.discard(key)
+
+    def _type_text(self, e, fi: FuncInfo) -> Optional[str]:
         if isinstance(e, ast.Name):
             if e.id == "self" and fi.cls is not None and not fi.is_static:
                 return fi.cls.qual
